@@ -164,6 +164,7 @@ impl EventLoop {
             // Last session might contain packets which aren't acked. If it's a new session, clear the pending packets.
             if !connack.session_present {
                 self.pending.clear();
+                self.state.forget_incoming();
             }
             self.network = Some(network);
 
